@@ -12,7 +12,7 @@ def pure(pid, technique, level_text, rule, floors, shards_quick=8, budget_quick=
     CHECKS[pid] = dict(
         level="exploration", technique=technique, level_text=level_text, rule=rule, floors=floors,
         shards_quick=shards_quick, budget_quick=budget_quick, shards_thorough=kw.pop("shards_thorough", 16),
-        budget_thorough=budget_thorough, release_pass=release, miri=miri, assumptions=PURE_ASSUME, **kw)
+        budget_thorough=budget_thorough, release_pass=release, miri=miri, memcheck=("pure" if miri else None), assumptions=PURE_ASSUME, **kw)
 
 
 pure("C26",
@@ -233,7 +233,7 @@ def codec(pid, technique, level_text, rule, floors, budget_quick=30, budget_thor
     CHECKS[pid] = dict(
         level="exploration", technique=technique, level_text=level_text, rule=rule, floors=floors,
         shards_quick=16, budget_quick=budget_quick, shards_thorough=16, budget_thorough=budget_thorough,
-        release_pass=True, miri=False, assumptions=CODEC_ASSUME, crash_is_violation=True, **kw)
+        release_pass=True, miri=False, memcheck="harness", memcheck_procs=2, memcheck_budget_ms=20000, assumptions=CODEC_ASSUME, crash_is_violation=True, **kw)
 
 
 EXPLORER_ASSUME = [
